@@ -49,9 +49,10 @@ from common import f2h, h2f, vec2p
 EPS = 2.0 ** -52
 MDF = 1e2 * EPS                      # AndersonAccelParams::min_div_fac default
 KEY_DEP = 'C10-add_column-dependent-column-division-by-zero-norm_q'
+KEY_ZPIV = 'C10-solve_col-exact-zero-pivot-division-tol0'
 STATS = {'orth_checked': 0, 'orth_skipped_illcond': 0, 'solve_checked': 0, 'solve_thresholded': 0,
          'poisoned_skipped': 0, 'aa_checked': 0, 'aa_ls_checked': 0, 'aa_ls_skipped': 0,
-         'dependent_adds': 0, 'exhaustive_nodes': 0, 'max_qr_err': 0.0, 'max_orth_err': 0.0,
+         'dependent_adds': 0, 'zero_pivot_divisions': 0, 'exhaustive_nodes': 0, 'max_qr_err': 0.0, 'max_orth_err': 0.0,
          'max_normal_eq': 0.0}
 
 
@@ -222,11 +223,21 @@ def random_aa(rng, count):
     return ops
 
 
+# the excluded point of `history_solve_least_squares` (`0 < tol ∨ PivNZ s`): scale_R(0) makes every pivot
+# exactly zero; with tol = 0 nothing is skipped (known finding KEY_ZPIV), with tol > 0 everything is (x = 0)
+ZERO_SCALE_OPS = [
+    'new 2 2', 'add ' + vec2p([1.0, 0.0]), 'add ' + vec2p([1.0, 1.0]), 'scale ' + f2h(0.0),
+    'solve ' + vec2p([1.0, 1.0]) + ' ' + f2h(1e-12) + ' ' + vec2p([7.0, 7.0]),
+    'solve ' + vec2p([1.0, 1.0]) + ' ' + f2h(0.0) + ' ' + vec2p([7.0, 7.0]),
+]
+
+
 def gen_ops(rng, n):
     """n = size knob: (exhaustive length over all four letters, exhaustive length over {add, remove},
     #random QR sequences, #random Anderson sequences)."""
     L, L2, nq, na = n
-    ops = exhaustive(rng, L, (1, 2, 3), (1, 2, 3, 4))
+    ops = list(ZERO_SCALE_OPS)
+    ops += exhaustive(rng, L, (1, 2, 3), (1, 2, 3, 4))
     if L2 > L:          # deeper, over {add, remove} only (ring wrap-around at every phase)
         ops += exhaustive(rng, L2, (1, 2, 3), (1, 2, 3, 4), 'AR')
     ops += random_qr(rng, nq)
@@ -379,7 +390,12 @@ def qr_monitor(kind, t, o, S):
                 return f'pivot |R[{r},{r}]| = {abs(R[r, r])!r} < tol = {tol!r} but x[{r}] = {x[r]!r} ≠ 0'
         if not finite(x[:K]):
             if any(R[r, r] == 0.0 for r in range(K) if r not in skipped):
-                return None        # division by an exactly zero pivot with tol = 0: outside the statement
+                # the excluded point of history_solve_least_squares (`0 < tol ∨ PivNZ`): an exactly zero pivot
+                # (here produced by scale_R(0)) passes the threshold test `|R| < tol` for tol ≤ 0
+                STATS['zero_pivot_divisions'] += 1
+                return (f'solve_col(b, x, tol = {tol!r}) divides by an exactly zero pivot (|R[r,r]| < tol is false for '
+                        f'tol ≤ 0): x = {x[:K]} is not finite although every vector minimises ‖A x − b‖ for the '
+                        f'rank-deficient window', KEY_ZPIV)
             return f'solve_col returned non-finite entries {x[:K]} on a finite factorisation'
         qtb = Q.T @ bb
         for r in range(K):
@@ -643,7 +659,7 @@ def replay(r):
     print('op      :', ops[-1][:400])
     print('impl out:', (hout[-1] if len(hout) == len(ops) else f'<crash rc={rc} {err[-200:]}>')[:400])
     print('monitor :', res)
-    return 1 if res and not (isinstance(res, tuple) and res[1] == KEY_DEP) else 0
+    return 1 if res and not (isinstance(res, tuple) and res[1] in (KEY_DEP, KEY_ZPIV)) else 0
 
 
 N_QUICK = (8, 8, 250, 250)
@@ -657,7 +673,8 @@ def main(argv):
         extra_sources=['Alpaqa/Model/C10.lean', 'Alpaqa/Gen/C10.lean', 'Alpaqa/Proofs/C10Basic.lean',
                        'Alpaqa/Proofs/C10Add.lean', 'Alpaqa/Proofs/C10Misc.lean',
                        'Alpaqa/Proofs/C10Remove.lean', 'Alpaqa/Proofs/C10Solve.lean',
-                       'Alpaqa/Proofs/C10Anderson.lean', 'Alpaqa/Proofs/C10History.lean', 'Alpaqa/Proofs/Basic.lean',
+                       'Alpaqa/Proofs/C10Anderson.lean', 'Alpaqa/Proofs/C10History.lean', 'Alpaqa/Proofs/C10Pivot.lean',
+                       'Alpaqa/Proofs/C10Trunc.lean', 'Alpaqa/Proofs/C10Givens.lean', 'Alpaqa/Proofs/Basic.lean',
                        'Driver/C10.lean'],
         harness_name='c10', harness_sources=[os.path.join(C.VERIF, 'harness', 'c10.cpp')],
         gen_ops=gen_ops, monitor=monitor, nontrivial=nontrivial, extra_stage=extra_stage,
@@ -672,8 +689,10 @@ def main(argv):
             'reset/initialize/resize are shape-checked against the expected AST)',
             'hand model Alpaqa/Model/C10.lean (MGS passes, Givens sweep, circular back-substitution, G ring) '
             'tied by bit-exact Float correspondence on the explored op sequences only',
-            'oracle: Eigen JacobiRotation::makeGivens — contract c²+s²=1, r = c·p − s·q, s·p + c·q = 0 assumed in '
-            'the theorems; the driver runs a line-by-line port (givensEigen) and agrees bit for bit',
+            'Eigen JacobiRotation::makeGivens: the theorems are stated for any function meeting the contract '
+            'c²+s²=1, r = c·p − s·q, s·p + c·q = 0, and the contract is PROVED (givensEigen_meets_contract, lawful sqrt) '
+            'for givensEigen, the line-by-line port the driver runs; trusted: that this port is Eigen\'s real-scalar '
+            'makeGivens (read off Eigen/src/Jacobi/Jacobi.h; bit-exact agreement with the real code on every run)',
             'std::sqrt enters the theorems only through SqrtLaw (sqrt a · sqrt a = a for a ≥ 0)',
             'theorems are over ordered fields (real-number semantics); IEEE rounding, conditioning and the '
             'benefit of reorthogonalisation are not proved — monitored (‖QR−A‖, ‖QᵀQ−I‖, normal equations)',
